@@ -12,7 +12,29 @@ def build(ctx, n_contracts, n_ifaces, seed_salt=0):
     return cts, ifs
 
 
+def view_of(pid):
+    """the part of the facts a property speaks about (the full facts are compared by C14's twins only): a difference in another
+    property's facts is not this property's broken correspondence"""
+    def msgs(j, keep_msg, keep_var, keep_field):
+        out = []
+        for m in j.get("msgs", []):
+            mm = {k: m[k] for k in keep_msg if k in m}
+            if "variants" in m:
+                mm["variants"] = [dict({k: v[k] for k in keep_var if k in v}, fields=[{k: f[k] for k in keep_field if k in f} for f in v.get("fields", [])])
+                                  for v in m["variants"]]
+            out.append(mm)
+        return out
+    if pid == "C01":      # JSON shape: types, variants, fields with their types and (serde) attributes
+        return lambda j: {"msgs": msgs(j, ["name", "attrs"], ["name", "attrs"], ["name", "ty", "attrs"])}
+    if pid == "C15":      # generic parameters, where-predicates, the aliases naming the types; variants / field types show what uses them
+        return lambda j: {"msgs": msgs(j, ["name", "generics", "wheres", "dispatch_generics"], ["name"], ["name", "ty"]), "api": j.get("api")}
+    if pid == "C17":      # attributes on types, variants, fields
+        return lambda j: {"msgs": msgs(j, ["name", "attrs"], ["name", "attrs"], ["name", "attrs"])}
+    return lambda j: j
+
+
 def run(ctx, name, cts, ifs, tag):
+    view = view_of(tag)
     progs = [("c%d" % i, "contract", "", gen.render_contract(ct)) for i, ct in enumerate(cts)] + \
             [("i%d" % i, "interface", "", gen.render_interface(it)) for i, it in enumerate(ifs)]
     res = l1.expand(progs, tag)
@@ -21,14 +43,14 @@ def run(ctx, name, cts, ifs, tag):
         f = res["c%d" % i]
         ops += ["reset", "contract " + gen.dumps(gen.contract_json(ct)), "facts contract"]
         obs = l1facts.observed(f) if f["status"] == "clean" else None
-        impl += ["ok", "ok", l1facts.canon(obs) if obs is not None else "status:" + f["status"]]
+        impl += ["ok", "ok", l1facts.canon(view(obs)) if obs is not None else "status:" + f["status"]]
         meta += [None, None, ("c%d" % i, ct, progs[i][3], f["status"])]
     for i, it in enumerate(ifs):
         f = res["i%d" % i]
         j = gen.interface_json(it)
         ops += ["reset", "iface " + gen.dumps(j), "facts iface " + it["module"]]
         obs = l1facts.observed(f, trait_name=it["name"]) if f["status"] == "clean" else None
-        impl += ["ok", "ok", l1facts.canon(obs) if obs is not None else "status:" + f["status"]]
+        impl += ["ok", "ok", l1facts.canon(view(obs)) if obs is not None else "status:" + f["status"]]
         meta += [None, None, ("i%d" % i, it, progs[len(cts) + i][3], f["status"])]
     model_raw = c.run_driver(ops)
     model = []
@@ -39,7 +61,7 @@ def run(ctx, name, cts, ifs, tag):
                 j.pop("reply_diags", None)
                 if o.startswith("facts iface"):
                     j.pop("reply_ids", None)
-                model.append(l1facts.canon(j))
+                model.append(l1facts.canon(view(j)))
             except Exception:
                 model.append(m)
         else:
